@@ -119,7 +119,7 @@ func writeShards(dir, prop string, header string, runFn string, caseType string,
 			}
 			fmt.Fprint(f, c)
 		}
-		fmt.Fprintf(f, "].\nDefinition M := Eval vm_compute in check_all %s cases.\nPrint M.\n", runFn)
+		fmt.Fprintf(f, "].\nDefinition M := Eval vm_compute in firstn 4 (check_all %s cases).\nPrint M.\n", runFn)
 		f.Close()
 		rep.Shards = append(rep.Shards, name)
 	}
